@@ -845,6 +845,7 @@ class Engine:
         self.short_timeout_ms = min(timeout_ms, 8000)
         self.fresh_counter = 0
         self.path_assumes = 0
+        self.lemmas = []
         self.max_paths = max_paths
         self.stats = dict(paths=0, decisions=0, forced=0, solver_calls=0,
                           solver_s=0.0, feas_queries=0, prop_queries=0,
@@ -1020,6 +1021,18 @@ class Engine:
                 self.model = None
         self.cache[t.get_id()] = True
 
+    def assume_lazy(self, cond):
+        """a hypothesis that is part of every PROPERTY query of this path (antecedent) but not of
+        the feasibility queries: used for stub axioms that are expensive to satisfy constructively
+        (the factor L L^T = C of multivariate_normal).  Exploring a path that is infeasible under
+        the hypothesis is harmless: its property queries are then vacuously unsat."""
+        if cond is True:
+            return
+        t = cond.t if isinstance(cond, SB) else cond
+        if cond is False:
+            t = z3.BoolVal(False)
+        self.lemmas.append(t)
+
     # ---- decisions
     def decide(self, term):
         if z3.is_true(term):
@@ -1163,6 +1176,7 @@ class Engine:
             self.cache = {}
             self.facts = {}
             self.path_assumes = 0
+            self.lemmas = []
             self.input_terms = {}
             try:
                 res = fn()
@@ -1227,7 +1241,7 @@ class Engine:
             finally:
                 self.solver.pop()
         # 3. the full query with the long timeout
-        if self._check(neg, kind='prop'):
+        if self._check(neg, *self.lemmas, kind='prop'):
             return self.last_model
         return None
 
@@ -1235,7 +1249,7 @@ class Engine:
         self.solver.set('timeout', timeout_ms)
         t0 = time.time()
         try:
-            r = self.solver.check(assumption)
+            r = self.solver.check(assumption, *self.lemmas)
         finally:
             self.solver.set('timeout', self.timeout_ms)
         self.stats['solver_s'] += time.time() - t0
@@ -1251,7 +1265,7 @@ class Engine:
             phi = z3.BoolVal(True)
         if phi is False:
             return None
-        if self._check(phi, kind='prop', guided=True):
+        if self._check(phi, *self.lemmas, kind='prop', guided=True):
             return self.last_model
         return None
 
